@@ -405,12 +405,14 @@ func (x *Unit) refBound(v Term, t types.Type, alloc Term, depth int) string {
 		if v.Sort.Kind != KSlice {
 			return ""
 		}
+		// a slice held by an allocated object is a real slice: its length is not negative
+		wfLen := "(>= " + x.U.SliceLen(v).S + " 0)"
 		el := Select(x.U.SliceArr(v), T("bv!ri", SInt))
 		inner := x.refBound(el, ut.Elem(), alloc, depth+1)
 		if inner == "" {
-			return ""
+			return wfLen
 		}
-		return "(forall ((bv!ri Int)) (! " + inner + " :pattern (" + el.S + ")))"
+		return "(and " + wfLen + " (forall ((bv!ri Int)) (! " + inner + " :pattern (" + el.S + "))))"
 	case *types.Struct:
 		if v.Sort.Kind != KStruct {
 			return ""
